@@ -663,7 +663,7 @@ def assemble(unit):
             open_wrap = wrap
         tagbase = f'item|{it.name}'
         A.items.append({'name': it.name, 'kind': it.kind, 'file': it.file, 'path': it.path, 'fingerprint': fp,
-                        'lines': [line0, line1], 'props': it.props})
+                        'lines': [line0, line1], 'props': it.props, 'assumed_here': bool(getattr(it, 'assumed_here', False))})
         if it.kind == 'fn':
             n0 = len(ch)
             build_fn(it, text, ch, tagbase)
